@@ -27,7 +27,7 @@ extern "C" int LLVMFuzzerTestOneInput(const uint8_t *data, size_t size) {
 	Recipe r = draw_recipe(c, maxlen, g.lz.dict_size);
 	if (sizeclass >= 235 && sizeclass < 250 && !g.use_preset && g.lz.dict_size <= (1u << 16) && r.len < (600u << 10)) r.len = (600u << 10) + (r.len & 0xFFFFF); // window slides: > 1.5*dict + 0.5 MiB
 	std::vector<uint8_t> in = expand(r);
-	g.prepare_for_len(in.size());
+	g.prepare_for_len(in.size()); ec::govern_cost(g, in.size());
 	drv::Schedule esch = drv::draw_schedule(c, true), dsch = drv::draw_schedule(c, true);
 	const bool micro = g.entry == ec::E_MICROLZMA;
 	set_desc("{\"cfg\":" + g.describe() + ",\"input\":" + r.describe() + ",\"enc_schedule\":" + esch.describe() + ",\"dec_schedule\":" + dsch.describe() + "}");
